@@ -6,7 +6,8 @@ pub struct ElementAt<Item>
 where
   Item: Clone + Send + Sync,
 {
-  take_op: operators::Take<Item>,
+  count: usize,
+  _item: std::marker::PhantomData<Item>,
 }
 
 impl<'a, Item> ElementAt<Item>
@@ -14,12 +15,10 @@ where
   Item: Clone + Send + Sync,
 {
   pub fn new(count: usize) -> ElementAt<Item> {
-    ElementAt {
-      take_op: operators::Take::<Item>::new(count),
-    }
+    ElementAt { count, _item: std::marker::PhantomData }
   }
   pub fn execute(&self, source: Observable<'a, Item>) -> Observable<'a, Item> {
-    let take_op = self.take_op.clone();
+    let count = self.count;
 
     Observable::<Item>::create(move |s| {
       let source = source.clone();
@@ -29,9 +28,13 @@ where
       let sctl_error = sctl.clone();
       let sctl_complete = sctl.clone();
 
-      take_op
-        .execute(source)
-        .last()
+      // the count-th item (1-based) and nothing else: a shorter source just completes
+      let picked = if count == 0 {
+        source.take(0)
+      } else {
+        source.skip(count - 1).take(1)
+      };
+      picked
         .inner_subscribe(sctl.new_observer(
           move |_, x| {
             sctl_next.sink_next(x);
